@@ -36,6 +36,14 @@ def hexOfNat (n : Nat) : String := String.ofList (Nat.toDigits 16 n)
 def encodeStr (cs : List Char) : String :=
   if cs.isEmpty then "_" else ".".intercalate (cs.map (fun c => hexOfNat c.toNat))
 
+def parseStrs : Nat → List String → Option (List (List Char) × List String)
+  | 0, rest => some ([], rest)
+  | n + 1, s :: rest => do
+    let cs ← decodeStr s
+    let (xs, rest') ← parseStrs n rest
+    some (cs :: xs, rest')
+  | _, _ => none
+
 def showBool (b : Bool) : String := if b then "1" else "0"
 def showOptNat : Option Nat → String
   | none => "-"
